@@ -710,7 +710,7 @@ pub fn parse_reference(input: &str) -> Result<String, ParseError> {
 pub fn split_at_first(input: &str, delimiter: char) -> (String, Option<String>) {
     if let Some(pos) = input.find(delimiter) {
         let (first, rest) = input.split_at(pos);
-        let rest = &rest[1..]; // Skip the delimiter
+        let rest = &rest[delimiter.len_utf8()..]; // Skip the delimiter
         (
             first.to_string(),
             if rest.is_empty() {
